@@ -142,6 +142,9 @@ func (s *Stream) Token() (interface{}, error) {
 		case '-', '0', '1', '2', '3', '4', '5', '6', '7', '8', '9':
 			bytes := floatBytes(s)
 			str := *(*string)(unsafe.Pointer(&bytes))
+			if !validNumberLiteral(str) {
+				return nil, errInvalidNumberLiteral(str, s.totalOffset())
+			}
 			if s.UseNumber {
 				return json.Number(str), nil
 			}
